@@ -314,7 +314,7 @@ func diffTrees(src, dst map[string]*treeEntry, ignore map[string]bool) (string, 
 		}
 	}
 	for _, cat := range []string{"missing-entry", "extra-entry", "type", "content", "symlink-target", "device-number", "mode", "owner", "xattr", "mtime-file", "mtime-dir", "mtime-char", "mtime-block", "mtime-symlink"} {
-		if d, ok := found[cat]; ok {
+		if d, ok := found[cat]; ok && !ignore[cat] {
 			return cat, d
 		}
 	}
